@@ -92,7 +92,26 @@ fn spawn_worker() -> Worker {
     Worker { tx, rx }
 }
 
+/// rand_jitter is built with its optional `log` feature, and a logger is installed at the most verbose level: it
+/// formats every record (so the arguments of every log statement in the crate are evaluated) and throws the text away.
+struct EvalLogger;
+impl log::Log for EvalLogger {
+    fn enabled(&self, _: &log::Metadata) -> bool {
+        true
+    }
+    fn log(&self, record: &log::Record) {
+        use std::fmt::Write as _;
+        let mut sink = String::new();
+        let _ = write!(sink, "{}", record.args());
+        std::hint::black_box(&sink);
+    }
+    fn flush(&self) {}
+}
+static EVAL_LOGGER: EvalLogger = EvalLogger;
+
 fn drive(inp: &str, outp: &str) {
+    let _ = log::set_logger(&EVAL_LOGGER);
+    log::set_max_level(log::LevelFilter::Trace);
     let f = BufReader::new(std::fs::File::open(inp).expect("open schedule"));
     let mut w = BufWriter::new(std::fs::File::create(outp).expect("create trace"));
     let mut ex = exec::Exec::new();
